@@ -7,6 +7,10 @@ SCEN = [
     ('dups', 'pq', 'id', ['push:5,push:5,pop', 'pop,push:5', 'push:1,pop,pop']),
     ('mono', 'pq', 'id', ['push:1,push:2,push:3', 'push:4,push:5', 'pop,pop,pop', 'pop,pop,pop']),
     ('desc', 'pq', 'id', ['push:9,push:8,push:7', 'pop,push:6,pop', 'pop,pop']),
+    # a pre-built heap, then one batch that mixes pushes and a pop (the heap boundary `mark` differs from the vector size inside the handler)
+    ('heap4', 'pq', 'id', ['push:9,push:7,push:5,push:3,bar,push:8', 'bar,push:1', 'bar,pop']),
+    ('heap6', 'pq', 'id', ['push:12,push:10,push:8,push:6,push:4,push:2,bar,push:11,pop', 'bar,push:1,push:9', 'bar,pop,pop']),
+    ('heap4b', 'pq', 'id', ['push:9,push:7,push:5,push:3,bar,push:6,push:8', 'bar,push:2,pop', 'bar,pop', 'bar,push:4']),
     ('f1', 'pqfault:1', 'id', ['push:5,pop', 'push:7,push:3', 'pop,pop']),
     ('f2', 'pqfault:2', 'id', ['push:5,pop', 'push:7,push:3', 'pop,pop']),
     ('f3', 'pqfault:3', 'id', ['push:5,push:2', 'push:7,push:3', 'pop,pop,pop']),
